@@ -247,6 +247,7 @@ type Rig struct {
 	cancel context.CancelFunc
 	r      *fw.Run
 	path   string
+	tainted bool // a round found connections that were never released
 }
 
 func defaultDesc(name string) string {
